@@ -1,2 +1,1409 @@
-(* Proofs for C03. *)
-From WI Require Import Lib.Base Lib.Info Model.Cert.
+(* Proofs for C03 (X.509 certificate fields are reported faithfully).
+   No axioms; standard library only. *)
+From WI Require Import Lib.Base Lib.Info Lib.Time Model.Cert Proofs.CertTime.
+From WI Require gen.CertTables.
+From Coq Require Import List NArith ZArith Lia Bool Permutation.
+From Coq Require Import ZifyN ZifyNat ZifyBool.
+Import ListNotations.
+Open Scope N_scope.
+
+(* ================================================================== *)
+(* A. small helpers                                                    *)
+(* ================================================================== *)
+Lemma bytes_eqb_refl : forall a, bytes_eqb a a = true.
+Proof. induction a; cbn; [reflexivity|]. rewrite N.eqb_refl. exact IHa. Qed.
+
+Lemma bytes_eqb_eq : forall a b, bytes_eqb a b = true <-> a = b.
+Proof.
+  induction a as [|x a IH]; destruct b as [|y b]; cbn; split; intro H; try reflexivity; try discriminate.
+  - apply andb_true_iff in H. destruct H as [H1 H2]. apply N.eqb_eq in H1. apply IH in H2. congruence.
+  - inversion H; subst. rewrite N.eqb_refl. apply bytes_eqb_refl.
+Qed.
+
+Lemma list_eqb_N_eq : forall a b : list N, list_eqb N.eqb a b = true <-> a = b.
+Proof.
+  induction a as [|x a IH]; destruct b as [|y b]; cbn; split; intro H; try reflexivity; try discriminate.
+  - apply andb_true_iff in H. destruct H as [H1 H2]. apply N.eqb_eq in H1. apply IH in H2. congruence.
+  - inversion H; subst. rewrite N.eqb_refl. apply IH. reflexivity.
+Qed.
+
+Lemma oid_eqb_eq : forall a b, oid_eqb a b = true <-> a = b.
+Proof. exact list_eqb_N_eq. Qed.
+
+(* ================================================================== *)
+(* B. decimal printing is injective: a parser reads the number back    *)
+(* ================================================================== *)
+Definition is_digit (c : N) : bool := (48 <=? c) && (c <=? 57).
+
+(* value of a digit string, most significant first *)
+Fixpoint dec_value (l : bytes) : N :=
+  match l with
+  | [] => 0
+  | c :: r => (c - 48) * 10 ^ N.of_nat (length r) + dec_value r
+  end.
+
+Definition parse_dec (l : bytes) : option N :=
+  match l with
+  | [] => None
+  | _ => if forallb is_digit l then Some (dec_value l) else None
+  end.
+
+Lemma dec_digits_fuel_spec : forall fuel n acc,
+  n < 2 ^ N.of_nat fuel -> (0 < fuel)%nat ->
+  dec_value (dec_digits_fuel fuel n acc) = n * 10 ^ N.of_nat (length acc) + dec_value acc
+  /\ (forallb is_digit acc = true -> forallb is_digit (dec_digits_fuel fuel n acc) = true)
+  /\ dec_digits_fuel fuel n acc <> [].
+Proof.
+  induction fuel as [|f IH]; intros n acc Hn Hf; [lia|].
+  cbn [dec_digits_fuel].
+  assert (Hr : n mod 10 < 10) by (apply N.mod_lt; lia).
+  assert (Hq : n = 10 * (n / 10) + n mod 10) by (apply N.div_mod; lia).
+  destruct (n / 10 =? 0) eqn:E.
+  - apply N.eqb_eq in E. repeat split.
+    + cbn [dec_value]. replace (48 + n mod 10 - 48) with (n mod 10) by lia. rewrite E in Hq. lia.
+    + intro Ha. cbn [forallb]. rewrite Ha. unfold is_digit.
+      replace (48 <=? 48 + n mod 10) with true by (symmetry; apply N.leb_le; lia).
+      replace (48 + n mod 10 <=? 57) with true by (symmetry; apply N.leb_le; lia). reflexivity.
+    + discriminate.
+  - apply N.eqb_neq in E.
+    destruct f as [|f'].
+    + (* fuel 1: n < 2, so n / 10 = 0 *) exfalso. cbn in Hn. assert (n / 10 = 0) by (apply N.div_small; lia). lia.
+    + assert (Hq2 : n / 10 < 2 ^ N.of_nat (S f')).
+      { rewrite Nnat.Nat2N.inj_succ in Hn. rewrite N.pow_succ_r' in Hn.
+        apply N.div_lt_upper_bound; lia. }
+      destruct (IH (n / 10) ((48 + n mod 10) :: acc) Hq2 ltac:(lia)) as [H1 [H2 H3]].
+      repeat split.
+      * rewrite H1. cbn [dec_value length].
+        replace (48 + n mod 10 - 48) with (n mod 10) by lia.
+        rewrite Nnat.Nat2N.inj_succ, N.pow_succ_r'. lia.
+      * intro Ha. apply H2. cbn [forallb]. rewrite Ha. unfold is_digit.
+        replace (48 <=? 48 + n mod 10) with true by (symmetry; apply N.leb_le; lia).
+        replace (48 + n mod 10 <=? 57) with true by (symmetry; apply N.leb_le; lia). reflexivity.
+      * exact H3.
+Qed.
+
+Lemma dec_of_N_fuel_ok : forall n, n < 2 ^ N.of_nat (S (N.to_nat (N.size n))).
+Proof.
+  intro n. rewrite Nnat.Nat2N.inj_succ, Nnat.N2Nat.id, N.pow_succ_r'.
+  pose proof (N.size_gt n). lia.
+Qed.
+
+Lemma dec_of_N_value : forall n, dec_value (dec_of_N n) = n.
+Proof.
+  intro n. unfold dec_of_N.
+  destruct (dec_digits_fuel_spec (S (N.to_nat (N.size n))) n [] (dec_of_N_fuel_ok n) ltac:(lia)) as [H _].
+  rewrite H. cbn. lia.
+Qed.
+
+Lemma dec_of_N_digits : forall n, forallb is_digit (dec_of_N n) = true.
+Proof.
+  intro n. unfold dec_of_N.
+  destruct (dec_digits_fuel_spec (S (N.to_nat (N.size n))) n [] (dec_of_N_fuel_ok n) ltac:(lia)) as [_ [H _]].
+  apply H. reflexivity.
+Qed.
+
+Lemma dec_of_N_nonempty : forall n, dec_of_N n <> [].
+Proof.
+  intro n. unfold dec_of_N.
+  destruct (dec_digits_fuel_spec (S (N.to_nat (N.size n))) n [] (dec_of_N_fuel_ok n) ltac:(lia)) as [_ [_ H]].
+  exact H.
+Qed.
+
+Theorem parse_dec_of_N : forall n, parse_dec (dec_of_N n) = Some n.
+Proof.
+  intro n. unfold parse_dec.
+  pose proof (dec_of_N_nonempty n) as Hne.
+  destruct (dec_of_N n) eqn:E; [congruence|].
+  rewrite <- E, dec_of_N_digits, dec_of_N_value. reflexivity.
+Qed.
+
+Lemma dec_of_N_inj : forall a b, dec_of_N a = dec_of_N b -> a = b.
+Proof.
+  intros a b H. pose proof (parse_dec_of_N a) as Ha. rewrite H, parse_dec_of_N in Ha. congruence.
+Qed.
+
+Lemma dec_of_Z_of_N : forall n, dec_of_Z (Z.of_N n) = dec_of_N n.
+Proof. destruct n; reflexivity. Qed.
+
+(* ================================================================== *)
+(* C. lower-case hex is injective on byte strings                      *)
+(* ================================================================== *)
+Definition unhex_digit (c : N) : N := if c <? 58 then c - 48 else c - 87.
+Fixpoint unhex (l : bytes) : bytes :=
+  match l with
+  | h :: lo :: r => (unhex_digit h * 16 + unhex_digit lo) :: unhex r
+  | _ => []
+  end.
+
+Definition all_bytes : list N := map N.of_nat (seq 0 256).
+
+Lemma in_all_bytes : forall b, b < 256 -> In b all_bytes.
+Proof.
+  intros b H. unfold all_bytes. apply in_map_iff. exists (N.to_nat b). split; [lia|].
+  apply in_seq. lia.
+Qed.
+
+Lemma unhex_hex_byte_all :
+  forallb (fun b => bytes_eqb (unhex (hex_byte false b)) [b]) all_bytes = true.
+Proof. vm_compute. reflexivity. Qed.
+
+Lemma unhex_hex_byte : forall b r, b < 256 -> unhex (hex_byte false b ++ r) = b :: unhex r.
+Proof.
+  intros b r H. pose proof unhex_hex_byte_all as A. rewrite forallb_forall in A.
+  specialize (A b (in_all_bytes b H)). apply bytes_eqb_eq in A.
+  unfold hex_byte in *. cbn [app unhex] in *. f_equal. congruence.
+Qed.
+
+Lemma bytes_ok_cons : forall b l, bytes_ok (b :: l) = true <-> b < 256 /\ bytes_ok l = true.
+Proof.
+  intros. unfold bytes_ok. cbn [forallb]. rewrite andb_true_iff. unfold byte_ok. rewrite N.ltb_lt. tauto.
+Qed.
+
+Theorem unhex_hex_of : forall l, bytes_ok l = true -> unhex (hex_of false l) = l.
+Proof.
+  induction l as [|b l IH]; intro H; [reflexivity|].
+  apply bytes_ok_cons in H. destruct H as [Hb Hl].
+  unfold hex_of. cbn [flat_map]. rewrite unhex_hex_byte by exact Hb. f_equal. apply IH. exact Hl.
+Qed.
+
+Lemma hex_of_nonempty : forall b l, hex_of false (b :: l) <> [].
+Proof. intros. unfold hex_of, hex_byte. cbn. discriminate. Qed.
+
+(* ================================================================== *)
+(* D. ", "-joined lists can be split again                             *)
+(* ================================================================== *)
+(* a token is clean when the two-byte separator ", " does not occur in it *)
+Fixpoint no_sep (t : bytes) : bool :=
+  match t with
+  | c :: r => match r with
+              | d :: _ => negb ((c =? 44) && (d =? 32)) && no_sep r
+              | [] => true
+              end
+  | [] => true
+  end.
+Definition token_ok (t : bytes) : bool := match t with [] => false | _ => no_sep t end.
+
+Fixpoint split_sep (cur : bytes) (l : bytes) : list bytes :=
+  match l with
+  | [] => [rev cur]
+  | c :: r => match r with
+              | d :: r' => if (c =? 44) && (d =? 32) then rev cur :: split_sep [] r'
+                           else split_sep (c :: cur) r
+              | [] => split_sep (c :: cur) r
+              end
+  end.
+(* an empty text stands for the empty list *)
+Definition split_list (v : bytes) : list bytes := match v with [] => [] | _ => split_sep [] v end.
+
+Lemma split_sep_cons2 : forall cur c d r,
+  split_sep cur (c :: d :: r) =
+  if (c =? 44) && (d =? 32) then rev cur :: split_sep [] r else split_sep (c :: cur) (d :: r).
+Proof. reflexivity. Qed.
+
+Lemma split_sep_last : forall t cur, no_sep t = true -> split_sep cur t = [rev cur ++ t].
+Proof.
+  induction t as [|c t IH]; intros cur H.
+  - cbn. rewrite app_nil_r. reflexivity.
+  - destruct t as [|d t'].
+    + reflexivity.
+    + cbn [no_sep] in H. apply andb_true_iff in H. destruct H as [H1 H2].
+      rewrite split_sep_cons2. apply negb_true_iff in H1. rewrite H1.
+      rewrite IH by exact H2. cbn [rev]. rewrite <- app_assoc. reflexivity.
+Qed.
+
+Lemma split_sep_token : forall t cur rest, no_sep t = true ->
+  split_sep cur (t ++ 44 :: 32 :: rest) = (rev cur ++ t) :: split_sep [] rest.
+Proof.
+  induction t as [|c t IH]; intros cur rest H.
+  - cbn. rewrite app_nil_r. reflexivity.
+  - destruct t as [|d t'].
+    + cbn [app]. rewrite split_sep_cons2.
+      replace ((c =? 44) && (44 =? 32)) with false by (rewrite andb_false_r; reflexivity).
+      rewrite split_sep_cons2. reflexivity.
+    + cbn [no_sep] in H. apply andb_true_iff in H. destruct H as [H1 H2].
+      apply negb_true_iff in H1.
+      change ((c :: d :: t') ++ 44 :: 32 :: rest) with (c :: d :: (t' ++ 44 :: 32 :: rest)).
+      rewrite split_sep_cons2. rewrite H1.
+      change (d :: t' ++ 44 :: 32 :: rest) with ((d :: t') ++ 44 :: 32 :: rest).
+      rewrite IH by exact H2. cbn [rev]. rewrite <- app_assoc. reflexivity.
+Qed.
+
+Lemma split_sep_join : forall ts t, forallb no_sep (t :: ts) = true ->
+  split_sep [] (join [44; 32] (t :: ts)) = t :: ts.
+Proof.
+  induction ts as [|t2 ts IH]; intros t H.
+  - cbn [join]. cbn [forallb] in H. apply andb_true_iff in H. rewrite split_sep_last by tauto. reflexivity.
+  - cbn [forallb] in H. apply andb_true_iff in H. destruct H as [H1 H2].
+    change (join [44; 32] (t :: t2 :: ts)) with (t ++ 44 :: 32 :: join [44; 32] (t2 :: ts)).
+    rewrite split_sep_token by exact H1. cbn [rev app]. f_equal. apply IH. exact H2.
+Qed.
+
+Lemma token_ok_no_sep : forall t, token_ok t = true -> no_sep t = true.
+Proof. destruct t; cbn; [discriminate|tauto]. Qed.
+
+Lemma join_nonempty : forall t ts, token_ok t = true -> join [44; 32] (t :: ts) <> [].
+Proof.
+  intros t ts H. destruct t as [|c t]; [discriminate|].
+  destruct ts; cbn; discriminate.
+Qed.
+
+Theorem split_list_join : forall ts, forallb token_ok ts = true ->
+  split_list (comma_join ts) = ts.
+Proof.
+  intros ts H. unfold comma_join. destruct ts as [|t ts]; [reflexivity|].
+  unfold split_list.
+  assert (Ht : token_ok t = true) by (cbn [forallb] in H; apply andb_true_iff in H; tauto).
+  pose proof (join_nonempty t ts Ht) as Hne.
+  destruct (join [44; 32] (t :: ts)) eqn:E; [congruence|]. rewrite <- E.
+  apply split_sep_join.
+  rewrite forallb_forall in *. intros x Hx. apply token_ok_no_sep. apply H. exact Hx.
+Qed.
+
+(* ================================================================== *)
+(* E. key usages                                                       *)
+(* ================================================================== *)
+(* generic: for ANY table whose k-th entry has the value 2^(i+k), the loop of x509KeyUsages
+   yields the names of the set bits, in bit order *)
+Fixpoint names_at_bits (i : N) (t : list (N * bytes)) (ku : N) : list bytes :=
+  match t with
+  | [] => []
+  | e :: r => (if N.testbit ku i then [snd e] else []) ++ names_at_bits (i + 1) r ku
+  end.
+Fixpoint bit_ordered (i : N) (t : list (N * bytes)) : bool :=
+  match t with
+  | [] => true
+  | e :: r => (fst e =? 2 ^ i) && bit_ordered (i + 1) r
+  end.
+
+Lemma land_pow2_eqb : forall ku i, (N.land ku (2 ^ i) =? 2 ^ i) = N.testbit ku i.
+Proof.
+  intros ku i. destruct (N.testbit ku i) eqn:E.
+  - apply N.eqb_eq. apply N.bits_inj. intro j.
+    rewrite N.land_spec, N.pow2_bits_eqb.
+    destruct (i =? j) eqn:Eij.
+    + apply N.eqb_eq in Eij. subst j. rewrite E. reflexivity.
+    + apply andb_false_r.
+  - apply N.eqb_neq. intro H.
+    assert (Hb : N.testbit (N.land ku (2 ^ i)) i = N.testbit (2 ^ i) i) by (rewrite H; reflexivity).
+    rewrite N.land_spec, N.pow2_bits_true, E in Hb. discriminate.
+Qed.
+
+Theorem usages_of_bit_ordered : forall t i ku, bit_ordered i t = true ->
+  usages_of t ku = names_at_bits i t ku.
+Proof.
+  unfold usages_of. induction t as [|e t IH]; intros i ku H; [reflexivity|].
+  cbn [bit_ordered] in H. apply andb_true_iff in H. destruct H as [H1 H2]. apply N.eqb_eq in H1.
+  cbn [filter names_at_bits]. rewrite H1, land_pow2_eqb.
+  destruct (N.testbit ku i); cbn [map app]; rewrite (IH (i + 1)) by exact H2; reflexivity.
+Qed.
+
+(* instance (T1): the table dumped from the running code is in bit order *)
+Lemma key_usage_table_bit_ordered : bit_ordered 0 gen.CertTables.key_usage_table = true.
+Proof. vm_compute. reflexivity. Qed.
+
+Theorem key_usages_spec : forall ku,
+  key_usages ku = names_at_bits 0 gen.CertTables.key_usage_table ku.
+Proof. intro. apply usages_of_bit_ordered. exact key_usage_table_bit_ordered. Qed.
+
+(* the nine names of RFC 5280 4.2.1.3 as this tool labels them, bit 0 first *)
+Definition usage_labels : list bytes := [
+  bs "digitalSignature"; bs "contentCommitment"; bs "keyEncipherment"; bs "dataEncipherment";
+  bs "keyAgreement"; bs "certSign"; bs "cRLSign"; bs "encipherOnly"; bs "decipherOnly"].
+
+(* names selected by a list of bits *)
+Fixpoint select_names (names : list bytes) (bits : list bool) : list bytes :=
+  match names, bits with
+  | n :: nr, b :: br => (if b then [n] else []) ++ select_names nr br
+  | _, _ => []
+  end.
+
+Definition bits_of_mask (m : N) : list bool := map (N.testbit m) [0; 1; 2; 3; 4; 5; 6; 7; 8].
+
+Fixpoint list_bytes_eqb (a b : list bytes) : bool :=
+  match a, b with
+  | [], [] => true
+  | x :: a', y :: b' => bytes_eqb x y && list_bytes_eqb a' b'
+  | _, _ => false
+  end.
+Lemma list_bytes_eqb_eq : forall a b, list_bytes_eqb a b = true -> a = b.
+Proof.
+  induction a as [|x a IH]; destruct b as [|y b]; cbn; intro H; try reflexivity; try discriminate.
+  apply andb_true_iff in H. destruct H as [H1 H2]. apply bytes_eqb_eq in H1. apply IH in H2. congruence.
+Qed.
+
+Definition masks_512 : list N := map N.of_nat (seq 0 512).
+Lemma in_masks_512 : forall m, m < 512 -> In m masks_512.
+Proof.
+  intros m H. unfold masks_512. apply in_map_iff. exists (N.to_nat m). split; [lia|]. apply in_seq. lia.
+Qed.
+
+(* finite sweep: all 512 masks, against the literal labels *)
+Lemma key_usages_sweep_check :
+  forallb (fun m => list_bytes_eqb (key_usages m) (select_names usage_labels (bits_of_mask m))) masks_512 = true.
+Proof. vm_compute. reflexivity. Qed.
+
+Theorem key_usages_sweep : forall m, m < 512 ->
+  key_usages m = select_names usage_labels (bits_of_mask m).
+Proof.
+  intros m H. pose proof key_usages_sweep_check as A. rewrite forallb_forall in A.
+  apply list_bytes_eqb_eq. apply A. apply in_masks_512. exact H.
+Qed.
+
+(* bits above 8 never add a name *)
+Theorem key_usages_high_bits : forall ku, key_usages ku = key_usages (ku mod 512).
+Proof.
+  intro ku. rewrite !key_usages_spec.
+  change 512 with (2 ^ 9).
+  cbv [names_at_bits gen.CertTables.key_usage_table].
+  repeat (rewrite (N.mod_pow2_bits_low ku 9) by (cbn; lia)). reflexivity.
+Qed.
+
+(* from the encoded BIT STRING: only its first nine bits matter, and they select the labels *)
+Lemma ku_mask_from_firstn : forall bits i, ku_mask_from i bits = ku_mask_from i (firstn (9 - i) bits).
+Proof.
+  induction bits as [|b r IH]; intro i.
+  - rewrite firstn_nil. reflexivity.
+  - cbn [ku_mask_from]. destruct (Nat.ltb i 9) eqn:E.
+    + apply Nat.ltb_lt in E. replace (9 - i)%nat with (S (9 - S i)) by lia.
+      cbn [firstn ku_mask_from]. replace (Nat.ltb i 9) with true by (symmetry; apply Nat.ltb_lt; lia).
+      rewrite (IH (S i)). reflexivity.
+    + apply Nat.ltb_ge in E. replace (9 - i)%nat with 0%nat by lia. reflexivity.
+Qed.
+
+Lemma select_names_firstn : forall names bits,
+  select_names names bits = select_names names (firstn (length names) bits).
+Proof.
+  induction names as [|n nr IH]; intros bits; [destruct bits; reflexivity|].
+  destruct bits as [|b br]; [reflexivity|]. cbn [length firstn select_names]. rewrite (IH br). reflexivity.
+Qed.
+
+Fixpoint all_bool_lists (n : nat) : list (list bool) :=
+  match n with
+  | O => [[]]
+  | S k => [] :: flat_map (fun l => [true :: l; false :: l]) (all_bool_lists k)
+  end.
+Lemma in_all_bool_lists : forall n l, (length l <= n)%nat -> In l (all_bool_lists n).
+Proof.
+  induction n as [|k IH]; intros l H.
+  - destruct l; [left; reflexivity|cbn in H; lia].
+  - destruct l as [|b l]; [left; reflexivity|]. right.
+    apply in_flat_map. exists l. split; [apply IH; cbn in H; lia|].
+    destruct b; [left|right; left]; reflexivity.
+Qed.
+
+Lemma key_usages_of_bits_check :
+  forallb (fun bits => list_bytes_eqb (key_usages (ku_mask bits)) (select_names usage_labels bits))
+          (all_bool_lists 9) = true.
+Proof. vm_compute. reflexivity. Qed.
+
+Theorem key_usages_of_bits : forall bits,
+  key_usages (ku_mask bits) = select_names usage_labels bits.
+Proof.
+  intro bits. unfold ku_mask. rewrite ku_mask_from_firstn, (select_names_firstn usage_labels bits).
+  change (9 - 0)%nat with 9%nat. change (length usage_labels) with 9%nat.
+  pose proof key_usages_of_bits_check as A. rewrite forallb_forall in A.
+  apply list_bytes_eqb_eq. apply (A (firstn 9 bits)). apply in_all_bool_lists. apply firstn_le_length.
+Qed.
+
+(* ================================================================== *)
+(* F. extended key usages                                              *)
+(* ================================================================== *)
+Definition eku_known (o : oid) : bool := match eku_id o with Some _ => true | None => false end.
+(* what is shown for one encoded KeyPurposeId: its name when the library knows it, else the dotted OID *)
+Definition eku_text (o : oid) : bytes :=
+  match eku_id o with Some id => eku_name id | None => dotted o end.
+
+Lemma x509_ekus_spec : forall l,
+  x509_ekus (known_ekus l) (unknown_ekus l) =
+  map eku_text (filter eku_known l) ++ map eku_text (filter (fun o => negb (eku_known o)) l).
+Proof.
+  intro l. unfold x509_ekus. f_equal.
+  - induction l as [|o l IH]; [reflexivity|].
+    unfold known_ekus in *. cbn [flat_map filter]. unfold eku_known, eku_text at 1.
+    destruct (eku_id o) eqn:E; cbn [app map]; [|exact IH].
+    unfold eku_text. rewrite E. f_equal. exact IH.
+  - induction l as [|o l IH]; [reflexivity|].
+    unfold unknown_ekus in *. cbn [filter]. unfold eku_known.
+    destruct (eku_id o) eqn:E; cbn [negb map]; [exact IH|].
+    unfold eku_text at 1. rewrite E. f_equal. exact IH.
+Qed.
+
+Lemma partition_perm : forall {A} (p : A -> bool) l,
+  Permutation l (filter p l ++ filter (fun x => negb (p x)) l).
+Proof.
+  induction l as [|x l IH]; [constructor|].
+  cbn [filter]. destruct (p x); cbn [negb app].
+  - constructor. exact IH.
+  - apply Permutation_cons_app. exact IH.
+Qed.
+
+(* nothing dropped, nothing added: the shown list is a rearrangement (known first) of the encoded one *)
+Theorem ekus_shown_perm : forall l,
+  Permutation (map eku_text l) (x509_ekus (known_ekus l) (unknown_ekus l)).
+Proof.
+  intro l. rewrite x509_ekus_spec, <- map_app. apply Permutation_map. apply partition_perm.
+Qed.
+
+(* T1 instance: every row of the regenerated table is shown by its name, and the names are clean tokens *)
+Lemma eku_table_names :
+  forallb (fun row => match row with (_, o, n) => bytes_eqb (eku_text o) n && token_ok n end)
+          gen.CertTables.eku_table = true.
+Proof. vm_compute. reflexivity. Qed.
+
+(* the usages of RFC 5280 4.2.1.12 and the vendor ones, literally *)
+Definition eku_labels : list (oid * bytes) := [
+  ([2; 5; 29; 37; 0], bs "any");
+  ([1; 3; 6; 1; 5; 5; 7; 3; 1], bs "serverAuth"); ([1; 3; 6; 1; 5; 5; 7; 3; 2], bs "clientAuth");
+  ([1; 3; 6; 1; 5; 5; 7; 3; 3], bs "codeSigning"); ([1; 3; 6; 1; 5; 5; 7; 3; 4], bs "emailProtection");
+  ([1; 3; 6; 1; 5; 5; 7; 3; 5], bs "ipsecEndSystem"); ([1; 3; 6; 1; 5; 5; 7; 3; 6], bs "ipsecTunnel");
+  ([1; 3; 6; 1; 5; 5; 7; 3; 7], bs "ipsecUser"); ([1; 3; 6; 1; 5; 5; 7; 3; 8], bs "timeStamping");
+  ([1; 3; 6; 1; 5; 5; 7; 3; 9], bs "OCSPSigning");
+  ([1; 3; 6; 1; 4; 1; 311; 10; 3; 3], bs "microsoftServerGatedCrypto");
+  ([2; 16; 840; 1; 113730; 4; 1], bs "netscapeServerGatedCrypto");
+  ([1; 3; 6; 1; 4; 1; 311; 2; 1; 22], bs "microsoftCommercialCodeSigning");
+  ([1; 3; 6; 1; 4; 1; 311; 61; 1; 1], bs "microsoftKernelCodeSigning")].
+
+Lemma eku_labels_shown :
+  forallb (fun p => bytes_eqb (eku_text (fst p)) (snd p)) eku_labels = true.
+Proof. vm_compute. reflexivity. Qed.
+
+Theorem eku_label_shown : forall o n, In (o, n) eku_labels -> eku_text o = n.
+Proof.
+  intros o n H. pose proof eku_labels_shown as A. rewrite forallb_forall in A.
+  apply bytes_eqb_eq. exact (A (o, n) H).
+Qed.
+
+Theorem eku_unknown_dotted : forall o, eku_known o = false -> eku_text o = dotted o.
+Proof. intros o H. unfold eku_known, eku_text in *. destruct (eku_id o); [discriminate|reflexivity]. Qed.
+
+(* dotted OIDs are clean tokens *)
+Lemma no_sep_no44 : forall t, forallb (fun c => negb (c =? 44)) t = true -> no_sep t = true.
+Proof.
+  induction t as [|c t IH]; intro H; [reflexivity|].
+  cbn [forallb] in H. apply andb_true_iff in H. destruct H as [H1 H2].
+  destruct t as [|d t']; [reflexivity|]. cbn [no_sep].
+  apply negb_true_iff in H1. rewrite H1. cbn. apply IH. exact H2.
+Qed.
+
+Lemma forallb_app_intro : forall {A} (p : A -> bool) a b,
+  forallb p a = true -> forallb p b = true -> forallb p (a ++ b) = true.
+Proof. intros. rewrite forallb_app. rewrite H, H0. reflexivity. Qed.
+
+Lemma digits_no44 : forall l, forallb is_digit l = true -> forallb (fun c => negb (c =? 44)) l = true.
+Proof.
+  intros l H. rewrite forallb_forall in *. intros c Hc. specialize (H c Hc).
+  unfold is_digit in H. apply andb_true_iff in H. destruct H as [H1 H2].
+  apply N.leb_le in H1. apply negb_true_iff. apply N.eqb_neq. lia.
+Qed.
+
+Lemma join_dot_no44 : forall ls, Forall (fun l => forallb (fun c => negb (c =? 44)) l = true) ls ->
+  forallb (fun c => negb (c =? 44)) (join [46] ls) = true.
+Proof.
+  induction 1 as [|l ls Hl Hls IH]; [reflexivity|].
+  destruct ls as [|l2 ls']; [exact Hl|].
+  change (join [46] (l :: l2 :: ls')) with (l ++ [46] ++ join [46] (l2 :: ls')).
+  apply forallb_app_intro; [exact Hl|]. apply forallb_app_intro; [reflexivity|exact IH].
+Qed.
+
+Lemma dotted_token_ok : forall o, o <> [] -> token_ok (dotted o) = true.
+Proof.
+  intros o Ho. unfold dotted.
+  assert (Hn : no_sep (join [46] (map dec_of_N o)) = true).
+  { apply no_sep_no44. apply join_dot_no44. apply Forall_forall. intros l Hl.
+    apply in_map_iff in Hl. destruct Hl as [n [Hn _]]. subst l. apply digits_no44. apply dec_of_N_digits. }
+  unfold token_ok. destruct (join [46] (map dec_of_N o)) eqn:E; [|exact Hn].
+  exfalso. destruct o as [|a o']; [congruence|].
+  cbn [map] in E. pose proof (dec_of_N_nonempty a) as Ha.
+  destruct (dec_of_N a) eqn:Ea; [congruence|].
+  destruct (map dec_of_N o'); cbn in E; discriminate.
+Qed.
+
+Lemma eku_name_in_token : forall t o id,
+  forallb (fun row => match row with (_, _, n) => token_ok n end) t = true ->
+  eku_id_in t o = Some id -> token_ok (eku_name_in t id) = true.
+Proof.
+  induction t as [|[[i0 o0] n0] t IH]; intros o id Hall Hf; [discriminate|].
+  cbn [forallb] in Hall. apply andb_true_iff in Hall. destruct Hall as [H0 Hall].
+  cbn [eku_id_in] in Hf. cbn [eku_name_in].
+  destruct (id =? i0) eqn:Ei; [exact H0|].
+  destruct (oid_eqb o o0).
+  - inversion Hf; subst. rewrite N.eqb_refl in Ei. discriminate.
+  - eapply IH; eassumption.
+Qed.
+
+Lemma eku_table_tokens :
+  forallb (fun row => match row with (_, _, n) => token_ok n end) gen.CertTables.eku_table = true.
+Proof. vm_compute. reflexivity. Qed.
+
+Lemma eku_text_token_ok : forall o, o <> [] -> token_ok (eku_text o) = true.
+Proof.
+  intros o Ho. unfold eku_text. destruct (eku_id o) as [id|] eqn:E; [|apply dotted_token_ok; exact Ho].
+  unfold eku_id, eku_name in *. eapply eku_name_in_token; [exact eku_table_tokens|exact E].
+Qed.
+
+(* ================================================================== *)
+(* G. subject alternative names                                        *)
+(* ================================================================== *)
+Definition gn_tag (g : general_name) : N := match g with GN t _ => t end.
+Definition gn_data (g : general_name) : bytes := match g with GN _ d => d end.
+(* the four kinds the tool reports: rfc822Name [1], dNSName [2], URI [6], iPAddress [7] *)
+Definition san_reported (g : general_name) : bool :=
+  (gn_tag g =? 2) || (gn_tag g =? 7) || (gn_tag g =? 6) || (gn_tag g =? 1).
+(* the text of one name: its characters; for an address, dotted-quad (4 octets) or IPv6 text (16 octets) *)
+Definition san_text (g : general_name) : bytes :=
+  if gn_tag g =? 7 then san_ip_string (gn_data g) else gn_data g.
+
+Definition of_kind (t : N) (l : list general_name) : list general_name := filter (fun g => gn_tag g =? t) l.
+
+Lemma sans_of_tag_spec : forall t l, sans_of_tag t l = map gn_data (of_kind t l).
+Proof.
+  intros t l. unfold sans_of_tag, of_kind. induction l as [|[t' d] l IH]; [reflexivity|].
+  cbn [flat_map filter gn_tag]. destruct (t' =? t); cbn [app map gn_data]; rewrite IH; reflexivity.
+Qed.
+
+(* grouped by kind: DNS, IP, URI, email; within a kind in encoded order *)
+Definition sans_grouped (l : list general_name) : list general_name :=
+  of_kind 2 l ++ of_kind 7 l ++ of_kind 6 l ++ of_kind 1 l.
+
+Lemma map_san_text_kind : forall t l, t <> 7 -> map san_text (of_kind t l) = map gn_data (of_kind t l).
+Proof.
+  intros t l Ht. unfold of_kind. induction l as [|g l IH]; [reflexivity|].
+  cbn [filter]. destruct (gn_tag g =? t) eqn:E; [|exact IH].
+  cbn [map]. rewrite IH. f_equal. unfold san_text. apply N.eqb_eq in E.
+  replace (gn_tag g =? 7) with false by (symmetry; apply N.eqb_neq; lia). reflexivity.
+Qed.
+
+Lemma map_san_text_ip : forall l, map san_text (of_kind 7 l) = map san_ip_string (map gn_data (of_kind 7 l)).
+Proof.
+  intro l. unfold of_kind. induction l as [|g l IH]; [reflexivity|].
+  cbn [filter]. destruct (gn_tag g =? 7) eqn:E; [|exact IH].
+  cbn [map]. rewrite IH. f_equal. unfold san_text. rewrite E. reflexivity.
+Qed.
+
+Theorem san_strings_spec : forall c, e_version c = 3 ->
+  san_strings current (x509_spec c) = map san_text (sans_grouped (opt_list (e_sans c))).
+Proof.
+  intros c Hv. unfold san_strings, x509_spec, sans_grouped. cbn [f_dns f_ips f_uris f_emails v_ip16 current].
+  rewrite Hv. cbn [N.eqb Pos.eqb].
+  rewrite !sans_of_tag_spec, !map_app, map_san_text_ip.
+  rewrite !map_san_text_kind by lia. reflexivity.
+Qed.
+
+Lemma sans_grouped_perm : forall l, Permutation (filter san_reported l) (sans_grouped l).
+Proof.
+  unfold sans_grouped, of_kind. induction l as [|g l IH]; [constructor|].
+  cbn [filter]. unfold san_reported at 1.
+  destruct (gn_tag g =? 2) eqn:E2; [|destruct (gn_tag g =? 7) eqn:E7; [|destruct (gn_tag g =? 6) eqn:E6; [|destruct (gn_tag g =? 1) eqn:E1]]];
+    cbn [orb].
+  - apply N.eqb_eq in E2.
+    replace (gn_tag g =? 7) with false by (symmetry; apply N.eqb_neq; lia).
+    replace (gn_tag g =? 6) with false by (symmetry; apply N.eqb_neq; lia).
+    replace (gn_tag g =? 1) with false by (symmetry; apply N.eqb_neq; lia).
+    cbn [app]. constructor. exact IH.
+  - apply N.eqb_eq in E7.
+    replace (gn_tag g =? 6) with false by (symmetry; apply N.eqb_neq; lia).
+    replace (gn_tag g =? 1) with false by (symmetry; apply N.eqb_neq; lia).
+    apply Permutation_cons_app. exact IH.
+  - apply N.eqb_eq in E6.
+    replace (gn_tag g =? 1) with false by (symmetry; apply N.eqb_neq; lia).
+    rewrite app_assoc. rewrite app_assoc in IH. cbn [app]. apply Permutation_cons_app. exact IH.
+  - apply N.eqb_eq in E1.
+    rewrite app_assoc, (app_assoc _ (filter _ l) (g :: _)).
+    rewrite app_assoc, (app_assoc _ (filter _ l) (filter _ l)) in IH.
+    apply Permutation_cons_app. exact IH.
+  - exact IH.
+Qed.
+
+(* every reported-kind name appears, and every string shown is the text of such an encoded name *)
+Theorem sans_shown_perm : forall c, e_version c = 3 ->
+  Permutation (map san_text (filter san_reported (opt_list (e_sans c)))) (san_strings current (x509_spec c)).
+Proof.
+  intros c Hv. rewrite san_strings_spec by exact Hv. apply Permutation_map. apply sans_grouped_perm.
+Qed.
+
+(* dotted-quad text of four octets can be read back *)
+Lemma ipv4_string_4 : forall a b c d, ipv4_string [a; b; c; d] =
+  dec_of_N a ++ [46] ++ dec_of_N b ++ [46] ++ dec_of_N c ++ [46] ++ dec_of_N d.
+Proof. reflexivity. Qed.
+
+(* ================================================================== *)
+(* I. the attribute list, from the encoded content alone               *)
+(* ================================================================== *)
+Definition nonempty {A} (l : list A) : bool := match l with [] => false | _ => true end.
+Definition is_some {A} (o : option A) : bool := match o with Some _ => true | None => false end.
+
+(* the shape of getCertificateInfo's attribute list: eight fixed entries, four optional ones *)
+Definition attrs_of (p_ski p_aki p_pl p_san : bool)
+    (serial subj ski iss aki nb na ku eku pl san sig : bytes) : list (bytes * bytes) :=
+  [(bs "Serial", serial); (bs "Subject", subj)] ++
+  (if p_ski then [(bs "Subject key id", ski)] else []) ++
+  [(bs "Issuer", iss)] ++
+  (if p_aki then [(bs "Authority key id", aki)] else []) ++
+  [(bs "Not before", nb); (bs "Not after", na); (bs "Key usage", ku); (bs "Extended key usage", eku)] ++
+  (if p_pl then [(bs "Max path length", pl)] else []) ++
+  (if p_san then [(bs "SANs", san)] else []) ++
+  [(bs "Signature algorithm", sig)].
+
+Lemma describe_attrs : forall v f,
+  i_attrs (describe_gen v f) =
+  attrs_of (nonempty (f_ski f)) (nonempty (f_aki f)) (show_path_len v f) (nonempty (san_strings v f))
+    (dec_of_Z (f_serial f)) (f_subject f) (hex_of false (f_ski f)) (f_issuer f) (hex_of false (f_aki f))
+    (date_string (f_not_before f)) (date_string (f_not_after f))
+    (comma_join (key_usages (f_key_usage f)))
+    (comma_join (x509_ekus (f_ext_key_usage f) (f_unknown_eku f)))
+    (dec_of_Z (f_max_path_len f)) (comma_join (san_strings v f)) (cert_signature_algorithm v f).
+Proof.
+  intros v f. unfold describe_gen, attrs_of. cbn [i_attrs].
+  destruct (f_ski f); destruct (f_aki f); destruct (show_path_len v f); destruct (san_strings v f); reflexivity.
+Qed.
+
+(* well-formedness of the encoded content, as far as the theorems need it (RFC 5280):
+   version 1..3 and extensions only in version 3; key identifiers non-empty octet strings;
+   pathLenConstraint >= 0; a signature algorithm known to the library is not the value 0;
+   OIDs have at least one arc; no rendered list item is empty or contains the separator ", " *)
+Definition no_extensions (c : enc_cert) : bool :=
+  negb (is_some (e_basic c)) && negb (is_some (e_key_usage c)) && negb (is_some (e_ekus c)) &&
+  negb (is_some (e_sans c)) && negb (is_some (e_ski c)) && negb (is_some (e_aki c)).
+
+Definition key_id_ok (o : option bytes) : bool :=
+  match o with Some k => nonempty k && bytes_ok k | None => true end.
+
+Definition enc_ok (c : enc_cert) : bool :=
+  (1 <=? e_version c) && (e_version c <=? 3) &&
+  ((e_version c =? 3) || no_extensions c) &&
+  key_id_ok (e_ski c) && key_id_ok (e_aki c) &&
+  match e_basic c with Some (_, Some n) => (0 <=? n)%Z | _ => true end &&
+  match e_sig c with SigKnown id => negb (id =? 0) | SigUnknown o => nonempty o end &&
+  forallb (fun o : oid => nonempty o) (opt_list (e_ekus c)) &&
+  forallb (fun g => token_ok (san_text g)) (filter san_reported (opt_list (e_sans c))).
+
+Definition ekus_grouped (l : list oid) : list oid :=
+  filter eku_known l ++ filter (fun o => negb (eku_known o)) l.
+
+(* what must be shown, computed from the encoded content *)
+Definition expected_desc (c : enc_cert) : bytes :=
+  bs "x.509v" ++ dec_of_N (e_version c) ++
+  match e_basic c with
+  | Some (true, _) => bs " CA"
+  | Some (false, _) => bs " end-entity"
+  | None => []
+  end ++ bs " certificate".
+
+Definition expected_usages (c : enc_cert) : list bytes :=
+  match e_key_usage c with Some bits => select_names usage_labels bits | None => [] end.
+Definition expected_ekus (c : enc_cert) : list bytes := map eku_text (ekus_grouped (opt_list (e_ekus c))).
+Definition expected_path_len (c : enc_cert) : option Z :=
+  match e_basic c with Some (true, Some n) => Some n | _ => None end.
+Definition expected_sans (c : enc_cert) : list bytes := map san_text (sans_grouped (opt_list (e_sans c))).
+Definition expected_sigalg (c : enc_cert) : bytes :=
+  match e_sig c with SigKnown id => sigalg_string id | SigUnknown o => dotted o end.
+
+Definition expected_attrs (c : enc_cert) : list (bytes * bytes) :=
+  attrs_of (is_some (e_ski c)) (is_some (e_aki c)) (is_some (expected_path_len c)) (nonempty (expected_sans c))
+    (dec_of_N (e_serial c)) (e_subject c) (hex_of false (opt_bytes (e_ski c))) (e_issuer c)
+    (hex_of false (opt_bytes (e_aki c)))
+    (date_string (e_not_before c)) (date_string (e_not_after c))
+    (comma_join (expected_usages c)) (comma_join (expected_ekus c))
+    (match expected_path_len c with Some n => dec_of_Z n | None => [] end)
+    (comma_join (expected_sans c)) (expected_sigalg c).
+
+Definition expected_info (c : enc_cert) : info :=
+  Info (expected_desc c) (expected_attrs c) [Info (bs "Public key") (pkix_public_key_attributes (e_spki c)) []].
+
+(* when the version is not 3, a well-formed content has no extensions *)
+Lemma enc_ok_ext : forall c, enc_ok c = true ->
+  e_version c = 3 \/ (e_version c <> 3 /\ e_basic c = None /\ e_key_usage c = None /\ e_ekus c = None /\
+                      e_sans c = None /\ e_ski c = None /\ e_aki c = None).
+Proof.
+  intros c H. unfold enc_ok in H. repeat (apply andb_true_iff in H; destruct H as [H ?]).
+  destruct (e_version c =? 3) eqn:V; [left; apply N.eqb_eq; exact V|right].
+  apply N.eqb_neq in V. cbn [orb] in *.
+  match goal with H : no_extensions c = true |- _ => unfold no_extensions in H;
+    repeat (apply andb_true_iff in H; destruct H as [H ?]) end.
+  repeat match goal with H : negb (is_some ?o) = true |- _ => destruct o; [discriminate H|clear H] end.
+  repeat split; try reflexivity. exact V.
+Qed.
+
+Ltac enc_split H :=
+  unfold enc_ok in H; repeat (apply andb_true_iff in H; destruct H as [H ?]).
+
+Theorem describe_expected : forall c, enc_ok c = true ->
+  describe (x509_spec c) = expected_info c.
+Proof.
+  intros c Hok. pose proof (enc_ok_ext c Hok) as Hext.
+  unfold describe, expected_info.
+  assert (Hd : description (x509_spec c) = expected_desc c).
+  { unfold description, expected_desc, x509_spec. cbn [f_version f_bc_valid f_is_ca].
+    rewrite dec_of_Z_of_N.
+    destruct Hext as [V|[V [B _]]].
+    - rewrite V. cbn [N.eqb Pos.eqb]. destruct (e_basic c) as [[[|] ?]|]; reflexivity.
+    - rewrite B. destruct (e_version c =? 3); reflexivity. }
+  assert (Ha : i_attrs (describe_gen current (x509_spec c)) = expected_attrs c).
+  { rewrite describe_attrs. unfold expected_attrs.
+    assert (Hski : f_ski (x509_spec c) = opt_bytes (e_ski c)).
+    { unfold x509_spec. cbn [f_ski]. destruct Hext as [V|[V [_ [_ [_ [_ [S _]]]]]]];
+        [rewrite V; reflexivity|rewrite S; destruct (e_version c =? 3); reflexivity]. }
+    assert (Haki : f_aki (x509_spec c) = opt_bytes (e_aki c)).
+    { unfold x509_spec. cbn [f_aki]. destruct Hext as [V|[V [_ [_ [_ [_ [_ S]]]]]]];
+        [rewrite V; reflexivity|rewrite S; destruct (e_version c =? 3); reflexivity]. }
+    assert (Hsan : san_strings current (x509_spec c) = expected_sans c).
+    { destruct Hext as [V|[V [_ [_ [_ [S _]]]]]]; [apply san_strings_spec; exact V|].
+      unfold expected_sans, san_strings, x509_spec. cbn [f_dns f_ips f_uris f_emails].
+      rewrite S. destruct (e_version c =? 3); reflexivity. }
+    assert (Hku : key_usages (f_key_usage (x509_spec c)) = expected_usages c).
+    { unfold expected_usages, x509_spec. cbn [f_key_usage].
+      destruct Hext as [V|[V [_ [K _]]]].
+      - rewrite V. cbn [N.eqb Pos.eqb]. destruct (e_key_usage c); [apply key_usages_of_bits|reflexivity].
+      - rewrite K. destruct (e_version c =? 3); reflexivity. }
+    assert (Heku : x509_ekus (f_ext_key_usage (x509_spec c)) (f_unknown_eku (x509_spec c)) = expected_ekus c).
+    { unfold expected_ekus, ekus_grouped, x509_spec. cbn [f_ext_key_usage f_unknown_eku].
+      destruct Hext as [V|[V [_ [_ [E _]]]]].
+      - rewrite V. cbn [N.eqb Pos.eqb]. rewrite x509_ekus_spec, map_app. reflexivity.
+      - rewrite E. destruct (e_version c =? 3); reflexivity. }
+    assert (Hpl : show_path_len current (x509_spec c) = is_some (expected_path_len c)
+                  /\ (show_path_len current (x509_spec c) = true ->
+                      dec_of_Z (f_max_path_len (x509_spec c)) =
+                      match expected_path_len c with Some n => dec_of_Z n | None => [] end)).
+    { unfold show_path_len, expected_path_len, x509_spec.
+      cbn [f_bc_valid f_is_ca f_max_path_len f_max_path_len_zero v_pathlen current].
+      destruct Hext as [V|[V [B _]]].
+      - rewrite V. cbn [N.eqb Pos.eqb].
+        destruct (e_basic c) as [[ca [n|]]|] eqn:B; cbn [andb].
+        + enc_split Hok. rewrite B in *. destruct ca; cbn [andb is_some].
+          * assert (Hn : (0 <= n)%Z) by (apply Z.leb_le; assumption).
+            destruct (0 <? n)%Z eqn:E1; cbn [orb]; [split; reflexivity|].
+            apply Z.ltb_ge in E1. assert (n = 0%Z) by lia. subst n. cbn. split; reflexivity.
+          * split; [reflexivity|discriminate].
+        + destruct ca; cbn; split; try reflexivity; discriminate.
+        + cbn. split; [reflexivity|discriminate].
+      - rewrite B. destruct (e_version c =? 3); cbn; (split; [reflexivity|discriminate]). }
+    assert (Hsig : cert_signature_algorithm current (x509_spec c) = expected_sigalg c).
+    { unfold cert_signature_algorithm, expected_sigalg, x509_spec. cbn [f_sigalg f_sig_oid v_sigoid current andb].
+      enc_split Hok. destruct (e_sig c) as [id|o].
+      - match goal with H : negb (id =? 0) = true |- _ => apply negb_true_iff in H; rewrite H end. reflexivity.
+      - reflexivity. }
+    destruct Hpl as [Hpl1 Hpl2].
+    rewrite Hski, Haki, Hsan, Hku, Heku, Hsig, Hpl1.
+    assert (Hs1 : nonempty (opt_bytes (e_ski c)) = is_some (e_ski c)).
+    { enc_split Hok. destruct (e_ski c) as [k|]; [|reflexivity].
+      match goal with H : key_id_ok (Some k) = true |- _ => cbn in H; apply andb_true_iff in H; destruct H as [H _]; exact H end. }
+    assert (Hs2 : nonempty (opt_bytes (e_aki c)) = is_some (e_aki c)).
+    { enc_split Hok. destruct (e_aki c) as [k|]; [|reflexivity].
+      match goal with H : key_id_ok (Some k) = true |- _ => cbn in H; apply andb_true_iff in H; destruct H as [H _]; exact H end. }
+    rewrite Hs1, Hs2.
+    unfold x509_spec at 1 2 3 4 5. cbn [f_serial f_subject f_issuer f_not_before f_not_after].
+    rewrite dec_of_Z_of_N.
+    destruct (is_some (expected_path_len c)) eqn:P.
+    - rewrite Hpl2 by exact Hpl1. reflexivity.
+    - unfold attrs_of. reflexivity. }
+  unfold describe_gen in *. cbn [i_attrs] in Ha. rewrite Ha.
+  fold (description (x509_spec c)). rewrite Hd.
+  unfold x509_spec at 1. cbn [f_spki]. reflexivity.
+Qed.
+
+(* ================================================================== *)
+(* J. reading the report back                                          *)
+(* ================================================================== *)
+Fixpoint attr (n : bytes) (l : list (bytes * bytes)) : option bytes :=
+  match l with
+  | [] => None
+  | (k, v) :: r => if bytes_eqb k n then Some v else attr n r
+  end.
+
+Fixpoint nodupb (l : list bytes) : bool :=
+  match l with
+  | [] => true
+  | x :: r => negb (existsb (bytes_eqb x) r) && nodupb r
+  end.
+Lemma nodupb_sound : forall l, nodupb l = true -> NoDup l.
+Proof.
+  induction l as [|x r IH]; intro H; [constructor|].
+  cbn [nodupb] in H. apply andb_true_iff in H. destruct H as [H1 H2]. constructor; [|apply IH; exact H2].
+  intro Hin. apply negb_true_iff in H1. assert (existsb (bytes_eqb x) r = true); [|congruence].
+  apply existsb_exists. exists x. split; [exact Hin|apply bytes_eqb_refl].
+Qed.
+
+Section lookups.
+  Variables (p1 p2 p3 p4 : bool) (v1 v2 v3 v4 v5 v6 v7 v8 v9 v10 v11 v12 : bytes).
+  Let A := attrs_of p1 p2 p3 p4 v1 v2 v3 v4 v5 v6 v7 v8 v9 v10 v11 v12.
+  Lemma attr_serial : attr (bs "Serial") A = Some v1.
+  Proof. unfold A. destruct p1, p2, p3, p4; reflexivity. Qed.
+  Lemma attr_subject : attr (bs "Subject") A = Some v2.
+  Proof. unfold A. destruct p1, p2, p3, p4; reflexivity. Qed.
+  Lemma attr_ski : attr (bs "Subject key id") A = if p1 then Some v3 else None.
+  Proof. unfold A. destruct p1, p2, p3, p4; reflexivity. Qed.
+  Lemma attr_issuer : attr (bs "Issuer") A = Some v4.
+  Proof. unfold A. destruct p1, p2, p3, p4; reflexivity. Qed.
+  Lemma attr_aki : attr (bs "Authority key id") A = if p2 then Some v5 else None.
+  Proof. unfold A. destruct p1, p2, p3, p4; reflexivity. Qed.
+  Lemma attr_nb : attr (bs "Not before") A = Some v6.
+  Proof. unfold A. destruct p1, p2, p3, p4; reflexivity. Qed.
+  Lemma attr_na : attr (bs "Not after") A = Some v7.
+  Proof. unfold A. destruct p1, p2, p3, p4; reflexivity. Qed.
+  Lemma attr_ku : attr (bs "Key usage") A = Some v8.
+  Proof. unfold A. destruct p1, p2, p3, p4; reflexivity. Qed.
+  Lemma attr_eku : attr (bs "Extended key usage") A = Some v9.
+  Proof. unfold A. destruct p1, p2, p3, p4; reflexivity. Qed.
+  Lemma attr_pl : attr (bs "Max path length") A = if p3 then Some v10 else None.
+  Proof. unfold A. destruct p1, p2, p3, p4; reflexivity. Qed.
+  Lemma attr_san : attr (bs "SANs") A = if p4 then Some v11 else None.
+  Proof. unfold A. destruct p1, p2, p3, p4; reflexivity. Qed.
+  Lemma attr_sig : attr (bs "Signature algorithm") A = Some v12.
+  Proof. unfold A. destruct p1, p2, p3, p4; reflexivity. Qed.
+  (* no attribute name occurs twice *)
+  Lemma attrs_names_nodup : NoDup (map fst A).
+  Proof. unfold A. destruct p1, p2, p3, p4; apply nodupb_sound; vm_compute; reflexivity. Qed.
+End lookups.
+
+(* leading digits *)
+Fixpoint span_digits (l : bytes) : bytes * bytes :=
+  match l with
+  | c :: r => if is_digit c then (let (a, b) := span_digits r in (c :: a, b)) else ([], l)
+  | [] => ([], [])
+  end.
+Lemma span_digits_app : forall ds c rest, forallb is_digit ds = true -> is_digit c = false ->
+  span_digits (ds ++ c :: rest) = (ds, c :: rest).
+Proof.
+  induction ds as [|d ds IH]; intros c rest H Hc.
+  - cbn. rewrite Hc. reflexivity.
+  - cbn [forallb] in H. apply andb_true_iff in H. destruct H as [H1 H2].
+    cbn [app span_digits]. rewrite H1, IH by assumption. reflexivity.
+Qed.
+
+Definition parse_desc (d : bytes) : option (N * option bool) :=
+  if prefix_of (bs "x.509v") d then
+    let (ds, rest) := span_digits (drop 6 d) in
+    match parse_dec ds with
+    | Some v =>
+        if bytes_eqb rest (bs " certificate") then Some (v, None)
+        else if bytes_eqb rest (bs " CA certificate") then Some (v, Some true)
+        else if bytes_eqb rest (bs " end-entity certificate") then Some (v, Some false)
+        else None
+    | None => None
+    end
+  else None.
+
+Lemma prefix_of_app : forall p x, prefix_of p (p ++ x) = true.
+Proof. induction p; intro x; cbn; [reflexivity|]. rewrite N.eqb_refl. apply IHp. Qed.
+Lemma drop_app_length : forall {A} (l r : list A), drop (length l) (l ++ r) = r.
+Proof. induction l; intro r; cbn; [destruct r; reflexivity|apply IHl]. Qed.
+
+Lemma parse_desc_expected : forall c,
+  parse_desc (expected_desc c) = Some (e_version c, option_map fst (e_basic c)).
+Proof.
+  intro c. unfold parse_desc, expected_desc.
+  rewrite prefix_of_app. change 6%nat with (length (bs "x.509v")). rewrite drop_app_length.
+  destruct (e_basic c) as [[[|] ?]|]; cbn [option_map fst].
+  - change (bs " CA" ++ bs " certificate") with (32 :: (bs "CA certificate")).
+    rewrite span_digits_app; [|apply dec_of_N_digits|reflexivity]. rewrite parse_dec_of_N. reflexivity.
+  - change (bs " end-entity" ++ bs " certificate") with (32 :: (bs "end-entity certificate")).
+    rewrite span_digits_app; [|apply dec_of_N_digits|reflexivity]. rewrite parse_dec_of_N. reflexivity.
+  - change ([] ++ bs " certificate") with (32 :: (bs "certificate")).
+    rewrite span_digits_app; [|apply dec_of_N_digits|reflexivity]. rewrite parse_dec_of_N. reflexivity.
+Qed.
+
+(* the report, read back into a record *)
+Record view := {
+  w_version : N;
+  w_role : option bool;                 (* Some true: CA; Some false: end-entity; None: not stated *)
+  w_serial : N;
+  w_subject : bytes;
+  w_issuer : bytes;
+  w_ski : option bytes;
+  w_aki : option bytes;
+  w_not_before : bytes;                 (* YYYY-MM-DD, characterised by date_string_spec *)
+  w_not_after : bytes;
+  w_key_usages : list bytes;
+  w_ekus : list bytes;
+  w_path_len : option N;
+  w_sans : list bytes;
+  w_sigalg : bytes;
+  w_key : list (bytes * bytes)
+}.
+
+Definition read_list (o : option bytes) : list bytes := match o with Some t => split_list t | None => [] end.
+
+Definition read_back (i : info) : option view :=
+  match i with
+  | Info d a [Info kd ka []] =>
+      if bytes_eqb kd (bs "Public key") then
+        match parse_desc d, attr (bs "Serial") a, attr (bs "Subject") a, attr (bs "Issuer") a,
+              attr (bs "Not before") a, attr (bs "Not after") a, attr (bs "Signature algorithm") a with
+        | Some (v, role), Some ser, Some sub, Some iss, Some nb, Some na, Some sg =>
+            match parse_dec ser,
+                  match attr (bs "Max path length") a with
+                  | None => Some None
+                  | Some t => option_map Some (parse_dec t)
+                  end with
+            | Some sn, Some pl =>
+                Some {| w_version := v; w_role := role; w_serial := sn; w_subject := sub; w_issuer := iss;
+                        w_ski := option_map unhex (attr (bs "Subject key id") a);
+                        w_aki := option_map unhex (attr (bs "Authority key id") a);
+                        w_not_before := nb; w_not_after := na;
+                        w_key_usages := read_list (attr (bs "Key usage") a);
+                        w_ekus := read_list (attr (bs "Extended key usage") a);
+                        w_path_len := pl;
+                        w_sans := read_list (attr (bs "SANs") a);
+                        w_sigalg := sg; w_key := ka |}
+            | _, _ => None
+            end
+        | _, _, _, _, _, _, _ => None
+        end
+      else None
+  | _ => None
+  end.
+
+(* what the encoded content says, field by field *)
+Definition canonical_view (c : enc_cert) : view :=
+  {| w_version := e_version c;
+     w_role := option_map fst (e_basic c);
+     w_serial := e_serial c;
+     w_subject := e_subject c;
+     w_issuer := e_issuer c;
+     w_ski := e_ski c;
+     w_aki := e_aki c;
+     w_not_before := date_string (e_not_before c);
+     w_not_after := date_string (e_not_after c);
+     w_key_usages := expected_usages c;           (* labels of the set bits 0..8, in bit order *)
+     w_ekus := expected_ekus c;                   (* name or dotted OID of every KeyPurposeId, known ones first *)
+     w_path_len := option_map Z.to_N (expected_path_len c);
+     w_sans := expected_sans c;                   (* text of every DNS / IP / URI / email name, grouped in this order *)
+     w_sigalg := expected_sigalg c;
+     w_key := pkix_public_key_attributes (e_spki c) |}.
+
+Lemma usage_labels_tokens : forallb token_ok usage_labels = true.
+Proof. vm_compute. reflexivity. Qed.
+
+Lemma select_names_tokens : forall names bits, forallb token_ok names = true ->
+  forallb token_ok (select_names names bits) = true.
+Proof.
+  induction names as [|n nr IH]; intros bits H; [destruct bits; reflexivity|].
+  destruct bits as [|b br]; [reflexivity|].
+  cbn [forallb] in H. apply andb_true_iff in H. destruct H as [H1 H2].
+  cbn [select_names]. rewrite forallb_app, (IH br H2). destruct b; cbn [forallb]; [rewrite H1|]; reflexivity.
+Qed.
+
+Lemma forallb_filter : forall {A} (p q : A -> bool) l, forallb p l = true -> forallb p (filter q l) = true.
+Proof.
+  intros A p q l H. rewrite forallb_forall in *. intros x Hx. apply filter_In in Hx. apply H. tauto.
+Qed.
+
+Lemma expected_tokens : forall c, enc_ok c = true ->
+  forallb token_ok (expected_usages c) = true /\
+  forallb token_ok (expected_ekus c) = true /\
+  forallb token_ok (expected_sans c) = true.
+Proof.
+  intros c Hok. enc_split Hok. repeat split.
+  - unfold expected_usages. destruct (e_key_usage c); [|reflexivity].
+    apply select_names_tokens. exact usage_labels_tokens.
+  - unfold expected_ekus, ekus_grouped. rewrite forallb_forall. intros t Ht.
+    apply in_map_iff in Ht. destruct Ht as [o [Ho Hin]]. subst t. apply eku_text_token_ok.
+    assert (Hin' : In o (opt_list (e_ekus c))).
+    { apply in_app_or in Hin. destruct Hin as [Hin|Hin]; apply filter_In in Hin; tauto. }
+    match goal with H : forallb (fun o : oid => nonempty o) _ = true |- _ =>
+      rewrite forallb_forall in H; specialize (H o Hin') end.
+    destruct o; [discriminate|discriminate].
+  - unfold expected_sans. rewrite forallb_forall. intros t Ht.
+    apply in_map_iff in Ht. destruct Ht as [g [Hg Hin]]. subst t.
+    assert (Hin' : In g (filter san_reported (opt_list (e_sans c)))).
+    { eapply Permutation_in; [apply Permutation_sym; apply sans_grouped_perm|exact Hin]. }
+    match goal with H : forallb (fun g => token_ok (san_text g)) _ = true |- _ =>
+      rewrite forallb_forall in H; exact (H g Hin') end.
+Qed.
+
+Lemma read_list_join : forall ts, forallb token_ok ts = true -> read_list (Some (comma_join ts)) = ts.
+Proof. intros. cbn [read_list]. apply split_list_join. assumption. Qed.
+
+Lemma key_id_roundtrip : forall o, key_id_ok o = true ->
+  option_map unhex (if is_some o then Some (hex_of false (opt_bytes o)) else None) = o.
+Proof.
+  intros o H. destruct o as [k|]; [|reflexivity]. cbn [is_some option_map opt_bytes]. f_equal.
+  apply unhex_hex_of. cbn in H. apply andb_true_iff in H. tauto.
+Qed.
+
+Theorem read_back_expected : forall c, enc_ok c = true ->
+  read_back (expected_info c) = Some (canonical_view c).
+Proof.
+  intros c Hok. destruct (expected_tokens c Hok) as [Tku [Teku Tsan]].
+  unfold read_back, expected_info, expected_attrs.
+  rewrite bytes_eqb_refl, parse_desc_expected.
+  rewrite attr_serial, attr_subject, attr_issuer, attr_nb, attr_na, attr_sig, attr_pl, attr_ski, attr_aki,
+          attr_ku, attr_eku, attr_san.
+  rewrite parse_dec_of_N.
+  assert (Hpl : (if is_some (expected_path_len c)
+                 then Some match expected_path_len c with Some n => dec_of_Z n | None => [] end else None) =
+                match expected_path_len c with Some n => Some (dec_of_N (Z.to_N n)) | None => None end).
+  { unfold expected_path_len. destruct (e_basic c) as [[[|] [n|]]|] eqn:B; try reflexivity.
+    cbn [is_some]. f_equal. enc_split Hok. rewrite B in *.
+    assert (Hn : (0 <= n)%Z) by (apply Z.leb_le; assumption).
+    rewrite <- dec_of_Z_of_N. rewrite Z2N.id by exact Hn. reflexivity. }
+  rewrite Hpl.
+  assert (Hski : option_map unhex (if is_some (e_ski c) then Some (hex_of false (opt_bytes (e_ski c))) else None) = e_ski c).
+  { enc_split Hok. destruct (e_ski c) as [k|]; [|reflexivity]. cbn [is_some option_map opt_bytes]. f_equal.
+    apply unhex_hex_of.
+    match goal with H : key_id_ok (Some k) = true |- _ => cbn in H; apply andb_true_iff in H; tauto end. }
+  assert (Haki : option_map unhex (if is_some (e_aki c) then Some (hex_of false (opt_bytes (e_aki c))) else None) = e_aki c).
+  { enc_split Hok. destruct (e_aki c) as [k|]; [|reflexivity]. cbn [is_some option_map opt_bytes]. f_equal.
+    apply unhex_hex_of.
+    match goal with H : key_id_ok (Some k) = true |- _ => cbn in H; apply andb_true_iff in H; tauto end. }
+  rewrite Hski, Haki, !read_list_join by assumption.
+  assert (Hsan : read_list (if nonempty (expected_sans c) then Some (comma_join (expected_sans c)) else None) = expected_sans c).
+  { destruct (expected_sans c) eqn:E; [reflexivity|]. cbn [nonempty]. rewrite <- E in *. apply read_list_join. exact Tsan. }
+  rewrite Hsan.
+  unfold canonical_view.
+  destruct (expected_path_len c) as [n|]; cbn [option_map]; [rewrite parse_dec_of_N|]; reflexivity.
+Qed.
+
+Theorem faithful : forall c, enc_ok c = true ->
+  read_back (describe (x509_spec c)) = Some (canonical_view c).
+Proof. intros c H. rewrite describe_expected by exact H. apply read_back_expected. exact H. Qed.
+
+(* ================================================================== *)
+(* K. corollaries, each about one field                                *)
+(* ================================================================== *)
+Definition shown (c : enc_cert) : list (bytes * bytes) := i_attrs (describe (x509_spec c)).
+
+Lemma shown_expected : forall c, enc_ok c = true -> shown c = expected_attrs c.
+Proof. intros c H. unfold shown. rewrite describe_expected by exact H. reflexivity. Qed.
+
+Theorem path_len_shown_iff : forall c v, enc_ok c = true ->
+  (attr (bs "Max path length") (shown c) = Some v <->
+   exists n, e_basic c = Some (true, Some n) /\ v = dec_of_Z n).
+Proof.
+  intros c v H. rewrite shown_expected by exact H. unfold expected_attrs. rewrite attr_pl.
+  unfold expected_path_len. split.
+  - intro G. destruct (e_basic c) as [[[|] [n|]]|]; cbn [is_some] in G; try discriminate G.
+    inversion G. exists n. split; reflexivity.
+  - intros [n [G1 G2]]. rewrite G1. cbn [is_some]. subst v. reflexivity.
+Qed.
+
+Theorem path_len_absent : forall c, enc_ok c = true ->
+  (forall n, e_basic c <> Some (true, Some n)) -> attr (bs "Max path length") (shown c) = None.
+Proof.
+  intros c H Hn. destruct (attr (bs "Max path length") (shown c)) as [v|] eqn:E; [|reflexivity].
+  apply path_len_shown_iff in E; [|exact H]. destruct E as [n [E _]]. elim (Hn n E).
+Qed.
+
+Theorem role_shown : forall c, enc_ok c = true ->
+  i_desc (describe (x509_spec c)) = expected_desc c.
+Proof. intros c H. rewrite describe_expected by exact H. reflexivity. Qed.
+
+Theorem serial_shown : forall c, enc_ok c = true ->
+  attr (bs "Serial") (shown c) = Some (dec_of_N (e_serial c)).
+Proof. intros c H. rewrite shown_expected by exact H. unfold expected_attrs. apply attr_serial. Qed.
+
+Theorem key_ids_shown : forall c, enc_ok c = true ->
+  option_map unhex (attr (bs "Subject key id") (shown c)) = e_ski c /\
+  option_map unhex (attr (bs "Authority key id") (shown c)) = e_aki c.
+Proof.
+  intros c H. rewrite shown_expected by exact H. unfold expected_attrs. rewrite attr_ski, attr_aki.
+  enc_split H. split; apply key_id_roundtrip; assumption.
+Qed.
+
+Theorem dates_shown : forall c, enc_ok c = true ->
+  attr (bs "Not before") (shown c) = Some (date_string (e_not_before c)) /\
+  attr (bs "Not after") (shown c) = Some (date_string (e_not_after c)).
+Proof.
+  intros c H. rewrite shown_expected by exact H. unfold expected_attrs. split; [apply attr_nb|apply attr_na].
+Qed.
+
+Theorem key_usage_shown : forall c, enc_ok c = true ->
+  attr (bs "Key usage") (shown c) = Some (comma_join (expected_usages c)) /\
+  split_list (comma_join (expected_usages c)) = expected_usages c.
+Proof.
+  intros c H. rewrite shown_expected by exact H. unfold expected_attrs. split; [apply attr_ku|].
+  apply split_list_join. apply (expected_tokens c H).
+Qed.
+
+Theorem eku_shown : forall c, enc_ok c = true ->
+  attr (bs "Extended key usage") (shown c) = Some (comma_join (expected_ekus c)) /\
+  split_list (comma_join (expected_ekus c)) = expected_ekus c /\
+  Permutation (map eku_text (opt_list (e_ekus c))) (expected_ekus c).
+Proof.
+  intros c H. rewrite shown_expected by exact H. unfold expected_attrs. split; [apply attr_eku|]. split.
+  - apply split_list_join. apply (expected_tokens c H).
+  - unfold expected_ekus, ekus_grouped. apply Permutation_map. apply partition_perm.
+Qed.
+
+Theorem sans_shown : forall c, enc_ok c = true ->
+  attr (bs "SANs") (shown c) = (if nonempty (expected_sans c) then Some (comma_join (expected_sans c)) else None) /\
+  split_list (comma_join (expected_sans c)) = expected_sans c /\
+  Permutation (map san_text (filter san_reported (opt_list (e_sans c)))) (expected_sans c).
+Proof.
+  intros c H. rewrite shown_expected by exact H. unfold expected_attrs. split; [apply attr_san|]. split.
+  - apply split_list_join. apply (expected_tokens c H).
+  - unfold expected_sans. apply Permutation_map. apply sans_grouped_perm.
+Qed.
+
+(* every name of a reported kind is present in the list shown; every item shown is such a name *)
+Theorem san_present : forall c g, enc_ok c = true ->
+  In g (opt_list (e_sans c)) -> san_reported g = true -> In (san_text g) (expected_sans c).
+Proof.
+  intros c g H Hin Hr. destruct (sans_shown c H) as [_ [_ P]].
+  eapply Permutation_in; [exact P|]. apply in_map. apply filter_In. tauto.
+Qed.
+Theorem san_has_source : forall c t, enc_ok c = true -> In t (expected_sans c) ->
+  exists g, In g (opt_list (e_sans c)) /\ san_reported g = true /\ t = san_text g.
+Proof.
+  intros c t H Hin. destruct (sans_shown c H) as [_ [_ P]].
+  apply (Permutation_in _ (Permutation_sym P)) in Hin. apply in_map_iff in Hin.
+  destruct Hin as [g [Hg Hin]]. apply filter_In in Hin. exists g. intuition.
+Qed.
+Theorem eku_present : forall c o, enc_ok c = true -> In o (opt_list (e_ekus c)) -> In (eku_text o) (expected_ekus c).
+Proof.
+  intros c o H Hin. destruct (eku_shown c H) as [_ [_ P]]. eapply Permutation_in; [exact P|]. apply in_map. exact Hin.
+Qed.
+Theorem eku_has_source : forall c t, enc_ok c = true -> In t (expected_ekus c) ->
+  exists o, In o (opt_list (e_ekus c)) /\ t = eku_text o.
+Proof.
+  intros c t H Hin. destruct (eku_shown c H) as [_ [_ P]].
+  apply (Permutation_in _ (Permutation_sym P)) in Hin. apply in_map_iff in Hin.
+  destruct Hin as [o [Ho Hin]]. exists o. intuition.
+Qed.
+(* a usage label is shown iff its bit is set *)
+Lemma in_select_names : forall names bits t,
+  In t (select_names names bits) <-> exists i, nth_error names i = Some t /\ nth_error bits i = Some true.
+Proof.
+  induction names as [|n nr IH]; intros bits t.
+  - destruct bits; cbn; split; [tauto| |tauto|]; intros [i [H _]]; destruct i; discriminate.
+  - destruct bits as [|b br]; [cbn; split; [tauto|intros [i [_ H]]; destruct i; discriminate]|].
+    cbn [select_names]. rewrite in_app_iff, IH. split.
+    + intros [H|[i [H1 H2]]].
+      * destruct b; [|destruct H]. destruct H as [H|[]]. subst. exists 0%nat. split; reflexivity.
+      * exists (S i). split; assumption.
+    + intros [[|i] [H1 H2]]; cbn in H1, H2.
+      * inversion H1; inversion H2; subst. left. left. reflexivity.
+      * right. exists i. split; assumption.
+Qed.
+
+(* nothing invented: every attribute shown is one of the twelve, each guarded by its source *)
+Definition attr_source (c : enc_cert) (n v : bytes) : Prop :=
+  (n = bs "Serial" /\ v = dec_of_N (e_serial c)) \/
+  (n = bs "Subject" /\ v = e_subject c) \/
+  (n = bs "Subject key id" /\ exists k, e_ski c = Some k /\ v = hex_of false k) \/
+  (n = bs "Issuer" /\ v = e_issuer c) \/
+  (n = bs "Authority key id" /\ exists k, e_aki c = Some k /\ v = hex_of false k) \/
+  (n = bs "Not before" /\ v = date_string (e_not_before c)) \/
+  (n = bs "Not after" /\ v = date_string (e_not_after c)) \/
+  (n = bs "Key usage" /\ v = comma_join (expected_usages c)) \/
+  (n = bs "Extended key usage" /\ v = comma_join (expected_ekus c)) \/
+  (n = bs "Max path length" /\ exists k, e_basic c = Some (true, Some k) /\ v = dec_of_Z k) \/
+  (n = bs "SANs" /\ expected_sans c <> [] /\ v = comma_join (expected_sans c)) \/
+  (n = bs "Signature algorithm" /\ v = expected_sigalg c).
+
+Theorem nothing_invented : forall c n v, enc_ok c = true -> In (n, v) (shown c) -> attr_source c n v.
+Proof.
+  intros c n v H Hin. rewrite shown_expected in Hin by exact H.
+  unfold expected_attrs, attrs_of in Hin. unfold attr_source.
+  repeat (apply in_app_or in Hin; destruct Hin as [Hin|Hin]);
+    repeat match goal with
+           | H : In _ (if ?b then _ else _) |- _ => destruct b eqn:?; [|destruct H]
+           | H : In _ [] |- _ => destruct H
+           | H : In _ (_ :: _) |- _ => destruct H as [H|H]; [inversion H; subst; clear H|]
+           end.
+  - tauto.
+  - tauto.
+  - destruct (e_ski c) as [k|]; [|discriminate]. right; right; left. split; [reflexivity|]. exists k. split; reflexivity.
+  - tauto.
+  - destruct (e_aki c) as [k|]; [|discriminate]. do 4 right; left. split; [reflexivity|]. exists k. split; reflexivity.
+  - tauto.
+  - tauto.
+  - tauto.
+  - tauto.
+  - unfold expected_path_len in *. destruct (e_basic c) as [[[|] [k|]]|]; try discriminate.
+    do 9 right; left. split; [reflexivity|]. exists k. split; reflexivity.
+  - do 10 right; left. split; [reflexivity|]. split; [|reflexivity].
+    destruct (expected_sans c); [discriminate|discriminate].
+  - tauto.
+Qed.
+
+Theorem names_unique : forall c, enc_ok c = true -> NoDup (map fst (shown c)).
+Proof. intros c H. rewrite shown_expected by exact H. apply attrs_names_nodup. Qed.
+
+(* ================================================================== *)
+(* L. the pre-repair code refutes the property (witnesses by computation) *)
+(* ================================================================== *)
+Definition witness_base : enc_cert :=
+  {| e_version := 3; e_serial := 77; e_subject := bs "CN=leaf.example"; e_issuer := bs "CN=Example CA";
+     e_not_before := 1704067200; e_not_after := 1735689600; e_spki := SBare [1; 3; 101; 112];
+     e_basic := None; e_key_usage := None; e_ekus := None; e_sans := None; e_ski := None; e_aki := None;
+     e_sig := SigKnown 16 |}.
+
+(* F12: a CA certificate whose basic constraints carry no pathLenConstraint *)
+Definition witness_F12 : enc_cert :=
+  {| e_version := 3; e_serial := 77; e_subject := bs "CN=leaf.example"; e_issuer := bs "CN=Example CA";
+     e_not_before := 1704067200; e_not_after := 1735689600; e_spki := SBare [1; 3; 101; 112];
+     e_basic := Some (true, None); e_key_usage := None; e_ekus := None; e_sans := None; e_ski := None; e_aki := None;
+     e_sig := SigKnown 16 |}.
+
+Theorem pre_F12_refuted : exists c, enc_ok c = true /\ (forall n, e_basic c <> Some (true, Some n)) /\
+  attr (bs "Max path length") (i_attrs (describe_gen pre_F12 (x509_spec c))) = Some (bs "-1").
+Proof.
+  exists witness_F12. split; [vm_compute; reflexivity|]. split; [intros n H; discriminate|].
+  vm_compute. reflexivity.
+Qed.
+
+(* the same certificate under the repaired code *)
+Example F12_repaired : attr (bs "Max path length") (shown witness_F12) = None.
+Proof. vm_compute. reflexivity. Qed.
+
+(* two different unknown signature algorithms were reported alike ("0") *)
+Definition witness_sig (o : oid) : enc_cert :=
+  {| e_version := 3; e_serial := 77; e_subject := bs "CN=leaf.example"; e_issuer := bs "CN=Example CA";
+     e_not_before := 1704067200; e_not_after := 1735689600; e_spki := SBare [1; 3; 101; 112];
+     e_basic := None; e_key_usage := None; e_ekus := None; e_sans := None; e_ski := None; e_aki := None;
+     e_sig := SigUnknown o |}.
+
+Theorem pre_sigoid_refuted : exists c1 c2, enc_ok c1 = true /\ enc_ok c2 = true /\ e_sig c1 <> e_sig c2 /\
+  describe_gen pre_sigoid (x509_spec c1) = describe_gen pre_sigoid (x509_spec c2) /\
+  attr (bs "Signature algorithm") (i_attrs (describe_gen pre_sigoid (x509_spec c1))) = Some (bs "0").
+Proof.
+  exists (witness_sig [1; 2; 840; 113549; 1; 1; 2]), (witness_sig [1; 2; 156; 10197; 1; 501]).
+  repeat split; try (vm_compute; reflexivity). intro H; discriminate.
+Qed.
+
+(* a 16-octet IPv4-mapped address and the 4-octet address were reported alike *)
+Definition witness_ip (ip : bytes) : enc_cert :=
+  {| e_version := 3; e_serial := 77; e_subject := bs "CN=leaf.example"; e_issuer := bs "CN=Example CA";
+     e_not_before := 1704067200; e_not_after := 1735689600; e_spki := SBare [1; 3; 101; 112];
+     e_basic := None; e_key_usage := None; e_ekus := None; e_sans := Some [GN 7 ip]; e_ski := None; e_aki := None;
+     e_sig := SigKnown 16 |}.
+
+Theorem pre_ip16_refuted : exists c1 c2, enc_ok c1 = true /\ enc_ok c2 = true /\ e_sans c1 <> e_sans c2 /\
+  describe_gen pre_ip16 (x509_spec c1) = describe_gen pre_ip16 (x509_spec c2).
+Proof.
+  exists (witness_ip [0; 0; 0; 0; 0; 0; 0; 0; 0; 0; 255; 255; 192; 0; 2; 1]), (witness_ip [192; 0; 2; 1]).
+  repeat split; try (vm_compute; reflexivity). intro H; discriminate.
+Qed.
+
+(* under the repaired code the two are told apart *)
+Example ip16_repaired :
+  attr (bs "SANs") (shown (witness_ip [0; 0; 0; 0; 0; 0; 0; 0; 0; 0; 255; 255; 192; 0; 2; 1])) = Some (bs "::ffff:192.0.2.1") /\
+  attr (bs "SANs") (shown (witness_ip [192; 0; 2; 1])) = Some (bs "192.0.2.1").
+Proof. split; vm_compute; reflexivity. Qed.
+
+(* the list separator is not escaped: a single name containing ", " reads like two names.
+   (Excluded from the theorems by enc_ok; not repaired: see the report.) *)
+Theorem san_separator_ambiguity : exists c1 c2, e_sans c1 <> e_sans c2 /\
+  describe (x509_spec c1) = describe (x509_spec c2) /\ enc_ok c1 = false /\ enc_ok c2 = true.
+Proof.
+  exists {| e_version := 3; e_serial := 77; e_subject := []; e_issuer := []; e_not_before := 0; e_not_after := 0;
+            e_spki := SBare [1; 3; 101; 112]; e_basic := None; e_key_usage := None; e_ekus := None;
+            e_sans := Some [GN 2 (bs "a.example, b.example")]; e_ski := None; e_aki := None; e_sig := SigKnown 16 |},
+         {| e_version := 3; e_serial := 77; e_subject := []; e_issuer := []; e_not_before := 0; e_not_after := 0;
+            e_spki := SBare [1; 3; 101; 112]; e_basic := None; e_key_usage := None; e_ekus := None;
+            e_sans := Some [GN 2 (bs "a.example"); GN 2 (bs "b.example")]; e_ski := None; e_aki := None; e_sig := SigKnown 16 |}.
+  repeat split; try (vm_compute; reflexivity). intro H; discriminate.
+Qed.
+
+(* ================================================================== *)
+(* M. the hypotheses are met by non-trivial contents                   *)
+(* ================================================================== *)
+Definition example_full : enc_cert :=
+  {| e_version := 3; e_serial := 2 ^ 159 + 12345; e_subject := bs "CN=leaf.example,O=Example\, Inc."; e_issuer := bs "CN=Example CA";
+     e_not_before := 2524607999; e_not_after := 2524608000; e_spki := SEc [1; 2; 840; 10045; 3; 1; 7];
+     e_basic := Some (true, Some 0%Z);
+     e_key_usage := Some [true; false; false; false; false; true; true];
+     e_ekus := Some [[1; 2; 3; 4]; [1; 3; 6; 1; 5; 5; 7; 3; 1]; [2; 999; 1]; [2; 5; 29; 37; 0]];
+     e_sans := Some [GN 7 [0; 0; 0; 0; 0; 0; 0; 0; 0; 0; 255; 255; 192; 0; 2; 1]; GN 2 (bs "a.example");
+                     GN 0 [1; 2; 3]; GN 7 [32; 1; 13; 184; 0; 0; 0; 0; 0; 1; 0; 0; 0; 0; 0; 1];
+                     GN 1 (bs "x@a.example"); GN 6 (bs "https://a.example/p?q=1#f"); GN 7 [192; 0; 2; 1]];
+     e_ski := Some [3; 222; 80; 53]; e_aki := Some [10; 188];
+     e_sig := SigUnknown [1; 2; 156; 10197; 1; 501] |}.
+
+Example example_full_ok : enc_ok example_full = true.
+Proof. vm_compute. reflexivity. Qed.
+
+Example example_full_shown : shown example_full = [
+  (bs "Serial", bs "730750818665451459101842416358141509827966283833");
+  (bs "Subject", bs "CN=leaf.example,O=Example\, Inc.");
+  (bs "Subject key id", bs "03de5035");
+  (bs "Issuer", bs "CN=Example CA");
+  (bs "Authority key id", bs "0abc");
+  (bs "Not before", bs "2049-12-31");
+  (bs "Not after", bs "2050-01-01");
+  (bs "Key usage", bs "digitalSignature, certSign, cRLSign");
+  (bs "Extended key usage", bs "serverAuth, any, 1.2.3.4, 2.999.1");
+  (bs "Max path length", bs "0");
+  (bs "SANs", bs "a.example, ::ffff:192.0.2.1, 2001:db8::1:0:0:1, 192.0.2.1, https://a.example/p?q=1#f, x@a.example");
+  (bs "Signature algorithm", bs "1.2.156.10197.1.501")].
+Proof. vm_compute. reflexivity. Qed.
+
+Example example_v1_ok : enc_ok {| e_version := 1; e_serial := 1; e_subject := []; e_issuer := [];
+     e_not_before := 0; e_not_after := 0; e_spki := SRsa [128; 0; 1]; e_basic := None; e_key_usage := None;
+     e_ekus := None; e_sans := None; e_ski := None; e_aki := None; e_sig := SigKnown 4 |} = true.
+Proof. vm_compute. reflexivity. Qed.
+
+(* ================================================================== *)
+(* N. presentations and the public-key child                           *)
+(* ================================================================== *)
+Theorem present_single : forall i, present_pem [i] = Ok i.
+Proof. reflexivity. Qed.
+
+Theorem present_bundle : forall i j r,
+  present_pem (i :: j :: r) = Ok (Info (bs "multiple PEM blocks") [] (i :: j :: r)).
+Proof. reflexivity. Qed.
+
+Theorem present_keystore : forall extras certs, length extras = length certs ->
+  map i_children (i_children (present_jks extras certs)) = map (fun c => [c]) certs.
+Proof.
+  unfold present_jks. cbn [i_children].
+  induction extras as [|[a ms] er IH]; destruct certs as [|c cr]; intro H; try discriminate; [reflexivity|].
+  cbn [jks_entries map jks_entry i_children]. f_equal. apply IH. cbn in H. congruence.
+Qed.
+
+(* "Size: n bits": n is the bit length of the encoded modulus *)
+Lemma be_to_N_acc_spec : forall l acc, be_to_N_acc acc l = acc * 256 ^ N.of_nat (length l) + be_to_N l.
+Proof.
+  unfold be_to_N. induction l as [|b l IH]; intro acc.
+  - cbn. lia.
+  - cbn [be_to_N_acc length]. rewrite IH, (IH (0 * 256 + b)).
+    rewrite Nnat.Nat2N.inj_succ, N.pow_succ_r'. lia.
+Qed.
+
+Lemma be_to_N_bound : forall l, bytes_ok l = true -> be_to_N l < 256 ^ N.of_nat (length l).
+Proof.
+  induction l as [|b l IH]; intro H.
+  - cbn. lia.
+  - apply bytes_ok_cons in H. destruct H as [Hb Hl]. specialize (IH Hl).
+    unfold be_to_N in *. cbn [be_to_N_acc length]. rewrite be_to_N_acc_spec.
+    rewrite Nnat.Nat2N.inj_succ, N.pow_succ_r'. unfold be_to_N. nia.
+Qed.
+
+Lemma be_to_N_strip : forall l, be_to_N (strip_zeros l) = be_to_N l.
+Proof.
+  induction l as [|b l IH]; [reflexivity|].
+  cbn [strip_zeros]. destruct b; [|reflexivity]. rewrite IH. reflexivity.
+Qed.
+
+Theorem bitlen_be_size : forall l, bytes_ok l = true -> bitlen_be l = N.size (be_to_N l).
+Proof.
+  intros l H. unfold bitlen_be. rewrite <- (be_to_N_strip l).
+  assert (Hs : bytes_ok (strip_zeros l) = true).
+  { induction l as [|b l IH]; [reflexivity|]. cbn [strip_zeros].
+    apply bytes_ok_cons in H. destruct H as [Hb Hl]. destruct b; [apply IH; exact Hl|].
+    apply bytes_ok_cons. split; assumption. }
+  assert (Hh : match strip_zeros l with [] => True | h :: _ => h <> 0 end).
+  { clear. induction l as [|b l IH]; [exact I|]. cbn [strip_zeros]. destruct b; [exact IH|discriminate]. }
+  destruct (strip_zeros l) as [|h r]; [reflexivity|].
+  apply bytes_ok_cons in Hs. destruct Hs as [Hh256 Hr].
+  pose proof (be_to_N_bound r Hr) as Hb.
+  unfold be_to_N in *. cbn [be_to_N_acc]. rewrite be_to_N_acc_spec. fold (be_to_N r) in *.
+  set (k := N.of_nat (length r)) in *. set (x := be_to_N_acc 0 r) in *.
+  replace (0 * 256 + h) with h by lia.
+  assert (H256 : 256 ^ k = 2 ^ (8 * k)) by (rewrite N.pow_mul_r; reflexivity).
+  rewrite H256 in *.
+  assert (Hpos : 0 < h) by lia.
+  pose proof (N.log2_spec h Hpos) as [L1 L2].
+  assert (Hn : h * 2 ^ (8 * k) + x <> 0) by (assert (0 < 2 ^ (8 * k)) by (apply N.neq_0_lt_0, N.pow_nonzero; lia); nia).
+  rewrite !N.size_log2 by assumption. f_equal.
+  assert (Hl : N.log2 (h * 2 ^ (8 * k) + x) = N.log2 h + 8 * k).
+  { apply N.log2_unique; [lia|].
+    rewrite N.pow_succ_r', N.pow_add_r. rewrite N.pow_succ_r' in L2.
+    assert (Hp : 0 < 2 ^ (8 * k)) by (apply N.neq_0_lt_0, N.pow_nonzero; lia).
+    set (a := 2 ^ N.log2 h) in *. set (p := 2 ^ (8 * k)) in *.
+    assert (M1 : a * p <= h * p) by (apply N.mul_le_mono_r; exact L1).
+    assert (M2 : (h + 1) * p <= 2 * a * p) by (apply N.mul_le_mono_r; lia).
+    change (be_to_N r) with x in Hb. clearbody a p x. split; lia. }
+  change (be_to_N r) with x. rewrite Hl. lia.
+Qed.
